@@ -574,4 +574,113 @@ theorem cumulative_last (size : Nat) (as : List ARec) (h1 : 1 ≤ as.length) :
   rw [cumulative, cumulativeFrom_last _ 0 hne]
   simp [payloadOf, lensOf, List.length_flatten, List.map_map, Function.comp_def]
 
+/-! ### data bytes of a cell: completion tag round trip -/
+
+theorem natToBits_length : ∀ (w v : Nat), (natToBits w v).length = w
+  | 0, _ => rfl
+  | w + 1, v => by simp [natToBits, natToBits_length w]
+
+theorem chunk8_bits : ∀ a b c d e f g h : Bool,
+    natToBits 8 (natOfBits [a, b, c, d, e, f, g, h]) = [a, b, c, d, e, f, g, h] ∧ natOfBits [a, b, c, d, e, f, g, h] < 256 := by
+  decide
+
+theorem chunk8 (c : Bits) (hc : c.length = 8) : natToBits 8 (natOfBits c) = c ∧ natOfBits c < 256 := by
+  match c, hc with
+  | [a, b, c, d, e, f, g, h], _ => exact chunk8_bits a b c d e f g h
+
+/-- on bit strings whose length is a multiple of 8, `tobytes` is inverted by `frombytes` -/
+theorem bitsToBytes_aligned : ∀ (n : Nat) (xs : Bits), xs.length = 8 * n →
+    bytesToBits (bitsToBytes xs) = xs ∧ (bitsToBytes xs).length = n ∧ Bytes.WF (bitsToBytes xs)
+  | 0, xs, h => by
+    have : xs = [] := List.eq_nil_of_length_eq_zero (by omega)
+    subst this
+    simp [bitsToBytes, bytesToBits, Bytes.WF]
+  | n + 1, xs, h => by
+    match xs, h with
+    | b0 :: rest, h =>
+      have hlen : ((b0 :: rest).take 8).length = 8 := by simp at h ⊢; omega
+      have hd : ((b0 :: rest).drop 8).length = 8 * n := by simp at h ⊢; omega
+      obtain ⟨ih1, ih2, ih3⟩ := bitsToBytes_aligned n _ hd
+      obtain ⟨c1, c2⟩ := chunk8 _ hlen
+      rw [bitsToBytes]
+      simp only [hlen, Nat.sub_self, List.replicate_zero, List.append_nil]
+      refine ⟨?_, by simpa using ih2, wf_cons c2 ih3⟩
+      simp only [bytesToBits, List.flatMap_cons, byteToBits, c1]
+      rw [show List.flatMap byteToBits (bitsToBytes (List.drop 8 (b0 :: rest))) = bytesToBits (bitsToBytes (List.drop 8 (b0 :: rest))) from rfl, ih1]
+      exact List.take_append_drop 8 (b0 :: rest)
+
+theorem stripTag_pad (bits : Bits) (k : Nat) : stripTag (bits ++ [true] ++ List.replicate k false) = bits := by
+  unfold stripTag
+  simp only [List.reverse_append, List.reverse_replicate, List.reverse_cons, List.append_assoc, List.singleton_append]
+  have : ∀ k (l : Bits), List.dropWhile (fun b => !b) (List.replicate k false ++ l) = List.dropWhile (fun b => !b) l := by
+    intro k l
+    induction k with
+    | zero => simp
+    | succ k ih => simp [List.replicate_succ, ih]
+  rw [this]
+  simp
+
+
+theorem low7_zero : ∀ last, last < 256 → last % 128 = 0 → (natToBits 8 last).reverse.take 7 = List.replicate 7 false := by
+  decide +kernel
+
+theorem padBits_length (bits : Bits) : (Spec.padBits bits).length = 8 * ((bits.length + 7) / 8) := by
+  unfold Spec.padBits
+  split
+  · omega
+  · simp; omega
+
+/-- second descriptor byte -/
+def cellD2 (len : Nat) : Nat := (len / 8) * 2 + (if len % 8 != 0 then 1 else 0)
+
+/-- the data bytes of a cell, as the strict reader needs them: right length, byte-valued, completion tag present and
+not overlong, and decoding them gives back the data bits -/
+theorem data_ok (bits : Bits) :
+    (dataBytes bits).length = cellD2 bits.length / 2 + cellD2 bits.length % 2 ∧ Bytes.WF (dataBytes bits) ∧
+    (cellD2 bits.length % 2 = 1 → ∃ last, (dataBytes bits).getLast? = some last ∧ last % 128 ≠ 0) ∧
+    decodeBits (cellD2 bits.length) (dataBytes bits) = bits := by
+  rw [CellSpec.dataBytes_eq]
+  unfold Spec.dataBytes
+  obtain ⟨hb, hl, hw⟩ := bitsToBytes_aligned _ _ (padBits_length bits)
+  by_cases h8 : bits.length % 8 = 0
+  · have hd2 : cellD2 bits.length = bits.length / 8 * 2 := by simp [cellD2, h8]
+    have hpad : Spec.padBits bits = bits := by simp [Spec.padBits, h8]
+    refine ⟨by rw [hl, hd2]; omega, hw, by rw [hd2]; omega, ?_⟩
+    simp only [decodeBits, hd2, Nat.mul_mod_left]
+    rw [hb, hpad]
+    rfl
+  · have hd2 : cellD2 bits.length = bits.length / 8 * 2 + 1 := by simp [cellD2, h8]
+    have hpad : Spec.padBits bits = bits ++ [true] ++ List.replicate (7 - bits.length % 8) false := by simp [Spec.padBits, h8]
+    refine ⟨by rw [hl, hd2]; omega, hw, ?_, ?_⟩
+    · intro _
+      have hne : bitsToBytes (Spec.padBits bits) ≠ [] := by
+        intro h; rw [h] at hl; simp at hl; omega
+      obtain ⟨last, hlast⟩ : ∃ last, (bitsToBytes (Spec.padBits bits)).getLast? = some last := by
+        cases hq : (bitsToBytes (Spec.padBits bits)).getLast? with
+        | none => exact absurd (List.getLast?_eq_none_iff.1 hq) hne
+        | some v => exact ⟨v, rfl⟩
+      refine ⟨last, hlast, ?_⟩
+      intro hz
+      obtain ⟨init, hinit⟩ : ∃ init, bitsToBytes (Spec.padBits bits) = init ++ [last] := by
+        exact List.getLast?_eq_some_iff.1 hlast
+      have hlt : last < 256 := hw last (by rw [hinit]; simp)
+      have h7 := low7_zero last hlt hz
+      have hb' := hb
+      rw [hinit] at hb'
+      simp only [bytesToBits, List.flatMap_append, List.flatMap_cons, List.flatMap_nil, List.append_nil, byteToBits] at hb'
+      have hrev : (Spec.padBits bits).reverse.take 7 = List.replicate 7 false := by
+        rw [← hb', List.reverse_append, List.take_append_of_le_length (by simp [natToBits_length]), h7]
+      rw [hpad] at hrev
+      have hk : 7 - bits.length % 8 < 7 := by omega
+      generalize 7 - bits.length % 8 = K at hrev hk
+      have h1 : (List.replicate 7 false)[K]? = some false := by rw [List.getElem?_replicate]; simp [hk]
+      have h2 : (List.take 7 (List.reverse (bits ++ [true] ++ List.replicate K false)))[K]? = some true := by
+        simp [hk]
+      rw [hrev, h1] at h2
+      cases h2
+    · simp only [decodeBits, hd2]
+      rw [show (bits.length / 8 * 2 + 1) % 2 = 1 by omega]
+      simp only [beq_self_eq_true, if_true]
+      rw [hb, hpad, stripTag_pad]
+
 end TonVerif.Proofs.BocEmit
